@@ -152,6 +152,27 @@ def replay_sep(text, cond, cex):
         return f"raises {type(e).__name__}: {e}"
 
 
+def _conc(v, m):
+    import numpy
+    if isinstance(v, SymArray):
+        return numpy.array([R.model_value(m, x) for x in v.e], dtype=v.dtype)
+    return v
+
+
+def confirmed(f, kw_full, kw_other, m, rows, what):
+    """replay a model on the real function: results on the first `rows` rows of the two calls must differ"""
+    import numpy
+    try:
+        a = numpy.asarray(f(**{k: _conc(v, m) for k, v in kw_full.items()}), dtype=float)
+        b = numpy.asarray(f(**{k: _conc(v, m) for k, v in kw_other.items()}), dtype=float)
+    except Exception as e:   # noqa: BLE001
+        return f"raises {type(e).__name__}: {e}"[:120]
+    if not numpy.allclose(a[:rows], b[:rows], rtol=1e-9, atol=1e-12, equal_nan=True):
+        return True
+    common.spurious("C02", f"{what}: model does not reproduce on the real function ({a.tolist()} vs {b.tolist()})")
+    return False
+
+
 def column_code(ck, na, nb):
     import _gettsim.aggregation_numpy as A
     from _gettsim.shared import join_numpy
@@ -166,9 +187,10 @@ def column_code(ck, na, nb):
         label = f"grouped_{kind}[{col.dtype if col is not None else '-'}]"
         try:
             mk = lambda g, k: ({"group_id": g} if col is None else {"column": SymArray(col.e[:k], col.dtype), "group_id": g})   # noqa: E731
-            full, c1 = c11.run_real(f, **mk(gid, n))
-            alone, c2 = c11.run_real(f, **mk(SymArray(gid.e[:na], int), na))
-            rel, c3 = c11.run_real(f, **mk(gid2, n))
+            kw_full, kw_alone, kw_rel = mk(gid, n), mk(SymArray(gid.e[:na], int), na), mk(gid2, n)
+            full, c1 = c11.run_real(f, **kw_full)
+            alone, c2 = c11.run_real(f, **kw_alone)
+            rel, c3 = c11.run_real(f, **kw_rel)
         except R.Unsupported as e:
             ck.add_inconclusive(f"{label}: {e}")
             continue
@@ -177,38 +199,42 @@ def column_code(ck, na, nb):
         r, m = ck.oblige(f"separable {label} A={na} B={nb}", pre + [bad], 60,
                          sample={"function": label, "claim": "F(A++B)|A == F(A) for disjoint group ids", "A_rows": na, "B_rows": nb})
         ck.nontrivial.add(("sep", label, na, nb))
-        if r == "sat":
-            ck.violation(["separable", label], f"{label}: rows of A change when unrelated rows B are appended", {"kind": "col", "label": label})
+        if r == "sat" and confirmed(f, kw_full, kw_alone, m, na, f"separable {label}") is not False:
+            ck.violation(["separable", label], f"{label}: rows of A change when unrelated rows B are appended: {({k: _conc(v, m).tolist() for k, v in kw_full.items()})}", {"kind": "col", "label": label})
         bad2 = z3.Or([z3.Not(R.values_equal(full.e[i], rel.e[i])) for i in range(n)])
         r, m = ck.oblige(f"relabel {label} N={n}", [g.t >= 0 for g in gid.e] + iso + [bad2], 60,
                          sample={"function": label, "claim": "F(sigma.ids) == F(ids) for every injective relabelling sigma", "rows": n})
         ck.nontrivial.add(("relabel", label, n))
-        if r == "sat":
-            ck.violation(["relabel", label], f"{label}: result depends on the group labels, not only on the partition", {"kind": "col", "label": label})
+        if r == "sat" and confirmed(f, kw_full, kw_rel, m, n, f"relabel {label}") is not False:
+            ck.violation(["relabel", label], f"{label}: result depends on the group labels, not only on the partition: {({k: _conc(v, m).tolist() for k, v in kw_full.items()})} vs {({k: _conc(v, m).tolist() for k, v in kw_rel.items()})}", {"kind": "col", "label": label})
     # pointer sums and joins: B's pointers stay in B, A's in A
     labs = c11.LABELS[n][1] if n in c11.LABELS else list(range(n))
     ptr = c11.ints("ptr", n)
     col = c11.reals("v", n)
     valid = [z3.Or([ptr.e[i].t < 0] + [ptr.e[i].t == labs[j] for j in (range(na) if i < na else range(na, n))]) for i in range(n)]
     try:
-        full, c1 = c11.run_real(A.sum_by_p_id, column=col, p_id_to_aggregate_by=ptr, p_id_to_store_by=SymArray(list(labs), int))
-        alone, c2 = c11.run_real(A.sum_by_p_id, column=SymArray(col.e[:na], float), p_id_to_aggregate_by=SymArray(ptr.e[:na], int), p_id_to_store_by=SymArray(list(labs[:na]), int))
+        kf = dict(column=col, p_id_to_aggregate_by=ptr, p_id_to_store_by=SymArray(list(labs), int))
+        ka = dict(column=SymArray(col.e[:na], float), p_id_to_aggregate_by=SymArray(ptr.e[:na], int), p_id_to_store_by=SymArray(list(labs[:na]), int))
+        full, c1 = c11.run_real(A.sum_by_p_id, **kf)
+        alone, c2 = c11.run_real(A.sum_by_p_id, **ka)
         bad = z3.Or([z3.Not(R.values_equal(full.e[i], alone.e[i])) for i in range(na)])
         r, m = ck.oblige(f"separable sum_by_p_id A={na} B={nb}", valid + [bad], 60, sample={"function": "sum_by_p_id", "claim": "F(A++B)|A == F(A)"})
         ck.nontrivial.add(("sep", "sum_by_p_id", na, nb))
-        if r == "sat":
-            ck.violation(["separable", "sum_by_p_id"], "sum_by_p_id: rows of A change when unrelated rows B are appended", {"kind": "col", "label": "sum_by_p_id"})
+        if r == "sat" and confirmed(A.sum_by_p_id, kf, ka, m, na, "separable sum_by_p_id") is not False:
+            ck.violation(["separable", "sum_by_p_id"], f"sum_by_p_id: rows of A change when unrelated rows B are appended: {({k: _conc(v, m).tolist() for k, v in kf.items()})}", {"kind": "col", "label": "sum_by_p_id"})
         fk, pk, tg = c11.ints("fk", n), c11.ints("pk", n), c11.reals("t", n)
         ok = [z3.Distinct([p.t for p in pk.e])] + [p.t >= 0 for p in pk.e]
         ok += [z3.Or([fk.e[i].t < 0] + [fk.e[i].t == pk.e[j].t for j in (range(na) if i < na else range(na, n))]) for i in range(n)]
-        full, c1 = c11.run_real(join_numpy, foreign_key=fk, primary_key=pk, target=tg, value_if_foreign_key_is_missing=0.0)
-        alone, c2 = c11.run_real(join_numpy, foreign_key=SymArray(fk.e[:na], int), primary_key=SymArray(pk.e[:na], int), target=SymArray(tg.e[:na], float), value_if_foreign_key_is_missing=0.0)
+        jf = dict(foreign_key=fk, primary_key=pk, target=tg, value_if_foreign_key_is_missing=0.0)
+        ja = dict(foreign_key=SymArray(fk.e[:na], int), primary_key=SymArray(pk.e[:na], int), target=SymArray(tg.e[:na], float), value_if_foreign_key_is_missing=0.0)
+        full, c1 = c11.run_real(join_numpy, **jf)
+        alone, c2 = c11.run_real(join_numpy, **ja)
         bad = z3.Or([z3.Not(R.values_equal(full.e[i], alone.e[i])) for i in range(na)])
         errs = [g for g, k, w in c1.errors + c2.errors]
         r, m = ck.oblige(f"separable join_numpy A={na} B={nb}", ok + ([z3.Not(z3.Or(errs))] if errs else []) + [bad], 60, sample={"function": "join_numpy", "claim": "F(A++B)|A == F(A)"})
         ck.nontrivial.add(("sep", "join_numpy", na, nb))
-        if r == "sat":
-            ck.violation(["separable", "join_numpy"], "join_numpy: rows of A change when unrelated rows B are appended", {"kind": "col", "label": "join_numpy"})
+        if r == "sat" and confirmed(join_numpy, jf, ja, m, na, "separable join_numpy") is not False:
+            ck.violation(["separable", "join_numpy"], f"join_numpy: rows of A change when unrelated rows B are appended: {({k: (_conc(v, m).tolist() if isinstance(v, SymArray) else v) for k, v in jf.items()})}", {"kind": "col", "label": "join_numpy"})
     except R.Unsupported as e:
         ck.add_inconclusive(f"pointer code: {e}")
 
